@@ -109,17 +109,21 @@ TCells(l) == CellsOf(TOcc, l)
 (*   <<"P2P", target leaf, source leaf, code3>>                            *)
 (***************************************************************************)
 FarActive(st) == Height > st
-ElemP2M(st) == IF FarActive(st) THEN { <<"P2M", m>> : m \in SOcc } ELSE {}
-ElemL2P(st) == IF FarActive(st) THEN { <<"L2P", m>> : m \in TOcc } ELSE {}
-ElemM2M(st) == UNION { { <<"M2M", l, Par(c), c, ChildCode(c)>> : c \in SCells(l+1) } : l \in st..(LeafLevel-1) }
-ElemL2L(st) == UNION { { <<"L2L", l, Par(c), c, ChildCode(c)>> : c \in TCells(l+1) } : l \in st..(LeafLevel-1) }
-ElemM2L(st) == UNION { UNION { { <<"M2L", l, t, x[1], x[2]>> : x \in { y \in ILTab[l][t] : y[1] \in SCells(l) } } : t \in TCells(l) } : l \in st..LeafLevel }
-ElemP2P == IF Tsm
-           THEN UNION { { <<"P2P", t, x[1], x[2]>> : x \in { y \in NBTab[t] \cup {<<t, Half3>>} : y[1] \in SOcc } } : t \in TOcc }
-           ELSE UNION { { <<"P2P", t, x[1], x[2]>> : x \in { y \in NBTab[t] : y[2] > Half3 /\ y[1] \in SOcc } } : t \in TOcc }
-ElemP2PI == IF Tsm THEN {} ELSE { <<"P2PI", m>> : m \in TOcc }
-Elementary(st) == ElemP2M(st) \cup ElemM2M(st) \cup ElemM2L(st) \cup ElemL2L(st) \cup ElemL2P(st) \cup ElemP2P \cup ElemP2PI
-
+\* (parametrised by the particle sequences so that the trace specification can evaluate it for a recorded occupancy)
+ElementaryFor(sp, tp, st) ==
+  LET so == SeqToSet(sp)  to == SeqToSet(tp)
+      sc(l) == CellsOf(so, l)  tc(l) == CellsOf(to, l)
+      p2m == IF FarActive(st) THEN { <<"P2M", m>> : m \in so } ELSE {}
+      l2p == IF FarActive(st) THEN { <<"L2P", m>> : m \in to } ELSE {}
+      m2m == UNION { { <<"M2M", l, Par(c), c, ChildCode(c)>> : c \in sc(l+1) } : l \in st..(LeafLevel-1) }
+      l2l == UNION { { <<"L2L", l, Par(c), c, ChildCode(c)>> : c \in tc(l+1) } : l \in st..(LeafLevel-1) }
+      m2l == UNION { UNION { { <<"M2L", l, t, x[1], x[2]>> : x \in { y \in ILTab[l][t] : y[1] \in sc(l) } } : t \in tc(l) } : l \in st..LeafLevel }
+      p2p == IF Tsm
+             THEN UNION { { <<"P2P", t, x[1], x[2]>> : x \in { y \in NBTab[t] \cup {<<t, Half3>>} : y[1] \in so } } : t \in to }
+             ELSE UNION { { <<"P2P", t, x[1], x[2]>> : x \in { y \in NBTab[t] : y[2] > Half3 /\ y[1] \in so } } : t \in to }
+      p2pi == IF Tsm THEN {} ELSE { <<"P2PI", m>> : m \in to }
+  IN p2m \cup m2m \cup m2l \cup l2l \cup l2p \cup p2p \cup p2pi
+Elementary(st) == ElementaryFor(sparts, tparts, st)
 \* what flows into an expansion
 IntoMp(P, l, c) == { e \in P : (e[1] = "P2M" /\ l = LeafLevel /\ e[2] = c) \/ (e[1] = "M2M" /\ e[2] = l /\ e[3] = c) }
 IntoLo(P, l, c) == { e \in P : (e[1] = "M2L" /\ e[2] = l /\ e[3] = c) \/ (e[1] = "L2L" /\ e[2] = l - 1 /\ e[4] = c) }
